@@ -43,9 +43,9 @@ theorem toks_mul_general {l r : Expr} (h : isFused l r = false) :
   · simp [isFused] at h
   · simp [isFused] at h
   · simp [opToks, lexToks_append, lexToks, lexTok, mulOpT]
-theorem toks_conv (l r : Expr) :
+theorem toks_conv (l r : Expr) (hr : r.isCond = false) :
     toks (.bin .conv l r) = (if l.isCond then wpT l else toks l) ++ .sym (.bop .conv) :: toks r := by
-  simp only [toks, ptoks, binopToks]
+  simp only [toks, ptoks, binopToks, hr, Bool.false_eq_true, if_false]
   split <;> simp [opToks, lexToks_append, lexToks, lexTok, wpT]
 
 theorem lexTok_num {b : Nat} {t : List Char} (h : t.head? ≠ some '-') : lexTok (.num b t) = [.num b t] := by
@@ -233,7 +233,9 @@ theorem hd_ok : ∀ (e : Expr), Frag e = true → ∀ R, hdOk (lvl e) (toks e ++
         rw [toks_pow_other (by intro b t; simp), List.append_assoc]
         exact (hw _).mono (by simp [lvl])
     | conv =>
-      rw [toks_conv, List.append_assoc]
+      have hrc : r.isCond = false := by
+        simp only [Frag, Bool.and_eq_true, Bool.not_eq_true'] at h; exact h.2
+      rw [toks_conv _ _ hrc, List.append_assoc]
       simp only [lvl]
       refine ⟨fun _ => ?_, fun h5 => by omega, fun h9 => by omega⟩
       cases hc : l.isCond with
